@@ -118,7 +118,9 @@ def contains(c, p, tol=1e-9):
     ok = True
     for k in range(4):
         a, b = c[k], c[(k + 1) % 4]
-        nrm = np.cross(a, b)
+        # a x b = a x (b - a): for the nearly parallel corners of deep tiles the difference is exact and
+        # the normal keeps its full relative accuracy (a x b itself cancels catastrophically)
+        nrm = np.cross(a, b - a)
         ln = np.linalg.norm(nrm)
         if ln < 1e-15:
             continue
@@ -136,7 +138,7 @@ def contains_many(c, p, tol=1e-9):
     ok = np.ones(c.shape[:-2], bool)
     for k in range(4):
         a, b = c[..., k, :], c[..., (k + 1) % 4, :]
-        nrm = np.cross(a, b)
+        nrm = np.cross(a, b - a)
         ln = np.linalg.norm(nrm, axis=-1, keepdims=True)
         nrm = nrm / np.where(ln < 1e-15, 1, ln)
         s = np.sign(np.sum(nrm * cen, axis=-1))
